@@ -34,6 +34,10 @@ type connCase struct {
 	// PauseMs > 0: every request body is sent in two parts with this pause in between ("direct-slow"
 	// mode runs with a 250 ms read-header timeout: the pause is longer than that limit)
 	PauseMs int `json:"pause_ms,omitempty"`
+	// Peer: the client address of the connection (nil: the main listener on 127.0.0.1); see peer.go
+	Peer *peerSpec `json:"peer,omitempty"`
+	// Creds: --credentials entries of the configuration (part of the environment)
+	Creds []reqmodel.Cred `json:"creds,omitempty"`
 }
 
 // env is one running configuration.
@@ -45,6 +49,7 @@ type env struct {
 	tlsOrig *rig.Peer // TLS origin (mitm)
 	up      *rig.Peer // upstream proxy
 	cfg     reqmodel.Cfg
+	creds   []reqmodel.Cred // --credentials entries (the model resolves them per request: C06 request)
 	ca      *rig.CA
 	mu      sync.Mutex
 }
@@ -88,7 +93,31 @@ func okResponder(w *rig.PeerConn, ex *rig.Exchange) bool {
 }
 
 func newEnv(ctx *core.Ctx, mode string, rules []string) (*env, error) {
-	e := &env{mode: mode, rules: rules}
+	return newEnvCreds(ctx, mode, rules, nil)
+}
+
+// credSets are the credential tables of the C01 configurations (none of them has an entry for the upstream proxy):
+// exact host:port entries, a port wildcard, a host wildcard, an entry for another site.
+var credSets = [][]reqmodel.Cred{
+	{{Host: "origin.test", Port: "80", User: "site", Pass: "s3:cret"}, {Host: "origin.test", Port: "443", User: "tls-site", Pass: "pw"}},
+	{{Host: "*", Port: "8080", User: "wild", Pass: "w"}, {Host: "origin.test", Port: "0", User: "anyport", Pass: "p w%"}},
+	{{Host: "origin.test", Port: "8080", User: "alt", Pass: ""}, {Host: "other.example", Port: "0", User: "never", Pass: "x"}},
+}
+
+// credsMode: configurations whose route the whole-configuration model renders (no PAC script of C01's own)
+func credsMode(mode string) bool {
+	switch mode {
+	case "direct", "direct-gate", "upstream", "upstream-auth", "mitm":
+		return true
+	}
+	return false
+}
+
+func newEnvCreds(ctx *core.Ctx, mode string, rules []string, creds []reqmodel.Cred) (*env, error) {
+	if len(creds) > 0 && !credsMode(mode) {
+		return nil, fmt.Errorf("mode %s takes no credentials table", mode)
+	}
+	e := &env{mode: mode, rules: rules, creds: creds}
 	var err error
 	if e.origin, err = rig.NewPeer("origin", okResponder); err != nil {
 		return nil, err
@@ -127,8 +156,13 @@ func newEnv(ctx *core.Ctx, mode string, rules []string) (*env, error) {
 	case "pac-upstream":
 		pacScript = `function FindProxyForURL(url, host) { if (url.substring(0, 5) == "http:") return "PROXY upstream.test:3128; DIRECT"; return "DIRECT"; }`
 	}
+	var hpus []*forwarder.HostPortUser
+	for _, c := range creds {
+		hpus = append(hpus, &forwarder.HostPortUser{HostPort: forwarder.HostPort{Host: c.Host, Port: c.Port}, Userinfo: urlUserPassword(c.User, c.Pass)})
+	}
 	opts := rig.ProxyOpts{
-		PACScript: pacScript,
+		PACScript:   pacScript,
+		Credentials: hpus,
 		ConnectTo: []forwarder.HostPortPair{
 			rig.Route("origin.test", "80", e.origin.Addr),
 			rig.Route("origin.test", "8080", e.origin.Addr),
@@ -138,6 +172,8 @@ func newEnv(ctx *core.Ctx, mode string, rules []string) (*env, error) {
 		Transport: func(tc *forwarder.HTTPTransportConfig) { tc.CACertFiles = []string{caFile} },
 		Configure: func(cfg *forwarder.HTTPProxyConfig) {
 			cfg.Name = "fwdverif"
+			// every instance can be reached over IPv4, IPv6 and through a PROXY protocol listener (peer.go)
+			cfg.ExtraListeners = extraListeners()
 			if len(hdrs) > 0 {
 				hs := header.Headers(hdrs)
 				// same dispatch as command/run configureHeadersModifiers
@@ -208,26 +244,26 @@ func (e *env) findExchange(id string) (*rig.Peer, *rig.Exchange) {
 
 // open returns a client connection ready for requests (for mitm: after CONNECT + TLS handshake).
 func (e *env) open() (*rig.Client, error) {
-	c, err := rig.Dial(e.proxy.Addr)
-	if err != nil {
-		return nil, err
-	}
+	c, _, err := e.openPeer(nil)
+	return c, err
+}
+
+// preamble: what a client does on a fresh connection before its requests (for mitm: CONNECT + TLS handshake).
+func (e *env) preamble(c *rig.Client) error {
 	if !isMITM(e.mode) {
-		return c, nil
+		return nil
 	}
 	c.Send([]byte("CONNECT origin.test:443 HTTP/1.1\r\nHost: origin.test:443\r\n\r\n"), nil)
 	res, err := c.ReadResponse("CONNECT", 5*time.Second)
 	if err != nil || res.Status != 200 {
-		c.Close()
-		return nil, fmt.Errorf("mitm CONNECT failed: %v %+v", err, res)
+		return fmt.Errorf("mitm CONNECT failed: %v %+v", err, res)
 	}
 	pool := e.ca.Pool()
 	pool.AddCert(e.proxy.CACert())
 	if _, err := c.StartTLS("origin.test", pool, false); err != nil {
-		c.Close()
-		return nil, err
+		return err
 	}
-	return c, nil
+	return nil
 }
 
 func (e *env) learnTag() (string, error) {
@@ -271,13 +307,12 @@ func schemeOf(mode string) string {
 // ---- evaluation of one connection case ----
 
 func (e *env) runConn(ctx *core.Ctx, cc *connCase) {
-	c, err := e.open()
+	c, mctx, err := e.openPeer(cc.Peer)
 	if err != nil {
 		ctx.Crash("proxy accepts a client connection", "", cc, err.Error())
 		return
 	}
 	defer c.Close()
-	mctx := reqmodel.Ctx{ClientIP: "127.0.0.1", Secure: isMITM(e.mode)}
 
 	var wire [][]byte
 	for _, r := range cc.Requests {
@@ -318,12 +353,16 @@ func (e *env) runConn(ctx *core.Ctx, cc *connCase) {
 
 	for i, r := range cc.Requests {
 		id := idOf(r)
-		out := reqmodel.Ask(ctx.Model, &e.cfg, &mctx, r)
-		one := oneReq{Mode: cc.Mode, Rules: cc.Rules, Position: i, Of: len(cc.Requests), Pipeline: cc.Pipeline, Segments: cc.Segments, Request: r}
+		out := e.ask(ctx.Model, &mctx, r)
+		one := oneReq{Mode: cc.Mode, Rules: cc.Rules, Position: i, Of: len(cc.Requests), Pipeline: cc.Pipeline, Segments: cc.Segments, Request: r, Peer: cc.Peer, Creds: cc.Creds}
 		peer, ex := e.findExchange(id)
 		nontrivial := len(r.Body()) > 0 || hasInteresting(r)
 		ctx.Case(fmt.Sprintf("%s|%s|%s", cc.Mode, strings.Join(cc.Rules, "\x00"), string(wire[i])), nontrivial)
 		ctx.Count("mode/" + cc.Mode)
+		ctx.Count("peer/" + cc.Peer.label())
+		if len(e.creds) > 0 {
+			ctx.Count("credentials/" + authShape(r))
+		}
 		ctx.Count("position/" + fmt.Sprint(i))
 		ctx.Count("method/" + strings.ToUpper(r.Method))
 		ctx.Count("model/" + out.Kind)
@@ -333,6 +372,10 @@ func (e *env) runConn(ctx *core.Ctx, cc *connCase) {
 			ctx.Count("body/cl")
 		} else {
 			ctx.Count("body/none")
+		}
+		// the Connection-field dimension: shape of the client's Connection field x fixed hop-by-hop field present
+		for _, l := range reqmodel.ConnShapeLabels(r.Fields) {
+			ctx.Count(l)
 		}
 		if out.Kind == "unreadable" {
 			// outside the modelled domain: reported, not gating
@@ -386,7 +429,7 @@ func (e *env) runConn(ctx *core.Ctx, cc *connCase) {
 			ctx.TraceValidated()
 		}
 		// the property evaluated directly on what the hop received (independent of the model)
-		for _, v := range specViolations(&e.cfg, &mctx, r, obs) {
+		for _, v := range specViolationsCreds(&e.cfg, e.creds, &mctx, r, obs) {
 			ctx.SpecFail(v.clause, v.class, one, implSummary, v.detail)
 		}
 		if responses[i] == nil || responses[i].Status != 200 {
@@ -394,7 +437,6 @@ func (e *env) runConn(ctx *core.Ctx, cc *connCase) {
 		}
 	}
 }
-
 
 func commonPrefix(a, b []byte) int {
 	n := 0
@@ -449,6 +491,8 @@ type oneReq struct {
 	Pipeline bool              `json:"pipeline,omitempty"`
 	Segments []int             `json:"segments,omitempty"`
 	Request  *reqmodel.Request `json:"request"`
+	Peer     *peerSpec         `json:"peer,omitempty"`
+	Creds    []reqmodel.Cred   `json:"creds,omitempty"`
 }
 
 func (o oneReq) MarshalJSON() ([]byte, error) {
@@ -497,6 +541,18 @@ func ruleNames(rules []string) (names map[string]bool, prefixes []string) {
 }
 
 func specViolations(cfg *reqmodel.Cfg, x *reqmodel.Ctx, r *reqmodel.Request, obs *rig.Msg) []violation {
+	return specViolationsCreds(cfg, nil, x, r, obs)
+}
+
+// specViolationsCreds: the clauses for a configuration with the --credentials entries creds. Authorization is an
+// end-to-end field like every other: what the client sent arrives unchanged; only when the client sent none (no
+// line, or an empty first value - what Header.Get sees) may the hop see a configured credential instead (which
+// one: model comparison, C06).
+func specViolationsCreds(cfg *reqmodel.Cfg, creds []reqmodel.Cred, x *reqmodel.Ctx, r *reqmodel.Request, obs *rig.Msg) []violation {
+	credValue := map[string]bool{}
+	for _, c := range creds {
+		credValue[reqmodel.BasicValue(c.User, c.Pass)] = true
+	}
 	var vs []violation
 	add := func(clause, class, detail string) { vs = append(vs, violation{clause, class, detail}) }
 	in := (&rig.Msg{Fields: r.Fields}).FieldMap()
@@ -595,7 +651,7 @@ func specViolations(cfg *reqmodel.Cfg, x *reqmodel.Ctx, r *reqmodel.Request, obs
 		case k == "authorization":
 			// nominated by Connection: the client's value is for this hop only; the origin may see the site
 			// credential the proxy attaches itself, nothing else
-			if !(cfg.SiteCred != nil && len(got) == 1 && got[0] == *cfg.SiteCred) {
+			if !(cfg.SiteCred != nil && len(got) == 1 && got[0] == *cfg.SiteCred) && !(len(got) == 1 && credValue[got[0]]) {
 				add("hop-by-hop fields are removed", "", fmt.Sprintf("%s: %q", k, got))
 			}
 		case k == "x-forwarded-host":
@@ -683,8 +739,15 @@ func specViolations(cfg *reqmodel.Cfg, x *reqmodel.Ctx, r *reqmodel.Request, obs
 		}
 	}
 	if !ruleTouched("authorization") && cfg.SiteCred == nil && !nominated["authorization"] {
-		if got, vin := out["authorization"], in["authorization"]; strings.Join(got, "\x00") != strings.Join(vin, "\x00") {
+		got, vin := out["authorization"], in["authorization"]
+		same := strings.Join(got, "\x00") == strings.Join(vin, "\x00") && len(got) == len(vin)
+		clientSent := len(vin) > 0 && vin[0] != ""
+		switch {
+		case same:
+		case clientSent || len(creds) == 0:
 			add("every end-to-end field with the same values in the same per-name order", "", fmt.Sprintf("authorization: %q vs %q", got, vin))
+		case !(len(got) == 1 && credValue[got[0]]):
+			add("configured site credentials are applied", "", fmt.Sprintf("authorization: %q is neither what the client sent (%q) nor a configured credential", got, vin))
 		}
 	}
 	if !bytes.Equal(obs.Body, r.Body()) {
@@ -774,4 +837,56 @@ func checkRuleTouched(rules []string, k string, in, out map[string][]string, str
 	if strings.Join(got, "\x00") != strings.Join(vals, "\x00") || len(got) != len(vals) {
 		add("configured header rules are applied", "", fmt.Sprintf("%s: got %q, rules give %q", k, got, vals))
 	}
+}
+
+// ask: the model's outcome for one request of this environment (with a credentials table: the whole-configuration
+// pipeline `C06 request`, which looks the target up in the table itself).
+func (e *env) ask(m *core.Model, x *reqmodel.Ctx, r *reqmodel.Request) reqmodel.Outcome {
+	if len(e.creds) == 0 {
+		return reqmodel.Ask(m, &e.cfg, x, r)
+	}
+	fc := reqmodel.FullCfg{Base: e.cfg, Route: reqmodel.RouteCfg{Base: "none"}, Creds: e.creds}
+	switch e.mode {
+	case "upstream":
+		fc.Route = reqmodel.RouteCfg{Base: "static", Static: &reqmodel.ProxyURL{Scheme: "http", Host: "upstream.test:3128"}}
+	case "upstream-auth":
+		u, p := upUser, upPass
+		fc.Route = reqmodel.RouteCfg{Base: "static", Static: &reqmodel.ProxyURL{Scheme: "http", Host: "upstream.test:3128", User: &u, Pass: &p}}
+	}
+	return reqmodel.AskFullRequest(m, &fc, x, r)
+}
+
+// authShape: what the client sent under Authorization (histogram label)
+func authShape(r *reqmodel.Request) string {
+	n, first := 0, ""
+	for _, f := range r.Fields {
+		if strings.EqualFold(f.Name, "Authorization") {
+			if n == 0 {
+				first = f.Value
+			}
+			n++
+		}
+	}
+	switch {
+	case n == 0:
+		return "client-none"
+	case first == "":
+		return "client-empty-first"
+	}
+	scheme, _, _ := strings.Cut(first, " ")
+	lines := ""
+	if n > 1 {
+		lines = "+lines"
+	}
+	return "client-" + strings.ToLower(scheme) + lines
+}
+
+func (p *peerSpec) label() string {
+	switch {
+	case p == nil:
+		return "v4"
+	case p.Listener != "pp":
+		return p.Listener
+	}
+	return fmt.Sprintf("pp-v%d-%s", p.Version, p.Family)
 }
